@@ -29,6 +29,27 @@ Definition sweep_step (f : N -> bool) (s : sweep_state) : sweep_state :=
 Definition diff_ranges (f : N -> bool) (impl : list (N * N)) (limit : nat) : list N :=
   rev (st_bad (N.iter 0x110000 (sweep_step f) (mkSt 0 impl [] limit))).
 
+(* the same sweep with both sides given as range lists (specification vs. implementation) *)
+Record sweep2_state := mkSt2 { s2_cp : N; s2_a : list (N * N); s2_b : list (N * N); s2_bad : list N; s2_left : nat }.
+
+Definition sweep2_step (s : sweep2_state) : sweep2_state :=
+  let cp := s2_cp s in
+  let a := drop_below cp (s2_a s) in
+  let b := drop_below cp (s2_b s) in
+  let ina := match a with (lo, _) :: _ => lo <=? cp | [] => false end in
+  let inb := match b with (lo, _) :: _ => lo <=? cp | [] => false end in
+  if Bool.eqb ina inb then mkSt2 (cp + 1) a b (s2_bad s) (s2_left s)
+  else match s2_left s with
+       | O => mkSt2 (cp + 1) a b (s2_bad s) O
+       | S k => mkSt2 (cp + 1) a b (cp :: s2_bad s) k
+       end.
+
+Definition diff_lists (a b : list (N * N)) (limit : nat) : list N :=
+  rev (s2_bad (N.iter 0x110000 sweep2_step (mkSt2 0 a b [] limit))).
+
+(* flat form of a range list, for printing *)
+Definition flat_ranges (rs : list (N * N)) : list N := flat_map (fun r => [fst r; snd r]) rs.
+
 (* well-formedness of the implementation's list (sorted, disjoint, non-adjacent, below 0x110000) *)
 Fixpoint ranges_wf (prev : N) (first : bool) (rs : list (N * N)) : bool :=
   match rs with
@@ -72,17 +93,24 @@ Definition mk_font (gs : cmap_groups) (adv : N -> Z) (space : option N) : font :
   mkFont (cmap_lookup gs) adv space.
 
 Definition out_glyph : Type := N * N * gpos.   (* gid, cluster, position *)
-Definition out_eqb (with_clusters : bool) (s : slot) (o : out_glyph) : bool :=
+Definition out_eqb (with_clusters with_pos : bool) (s : slot) (o : out_glyph) : bool :=
   let '(g, c, p) := o in
-  (gid (fst s) =? g) && (negb with_clusters || (cluster (fst s) =? c)) && gpos_eqb (snd s) p.
-Fixpoint outs_eqb (wc : bool) (a : list slot) (b : list out_glyph) : bool :=
+  (gid (fst s) =? g) && (negb with_clusters || (cluster (fst s) =? c)) && (negb with_pos || gpos_eqb (snd s) p).
+Fixpoint outs_eqb (wc wp : bool) (a : list slot) (b : list out_glyph) : bool :=
   match a, b with
   | [], [] => true
-  | x :: a', y :: b' => out_eqb wc x y && outs_eqb wc a' b'
+  | x :: a', y :: b' => out_eqb wc wp x y && outs_eqb wc wp a' b'
   | _, _ => false
   end.
 
-Definition api_case : Type := N * N * list N * list out_glyph.   (* flags, level, text, observed *)
-Definition check_api (ft : font) (with_clusters : bool) (c : api_case) : bool :=
-  let '(flags, level, text, obs) := c in
-  outs_eqb (with_clusters && negb (level =? 0)) (simple_shape ft flags level text) obs.
+(* flags, level, text, the marks of the text (gc Mc/Me/Mn by the real init_unicode_props), observed.
+   Clusters are compared at levels 1 and 2 (level 0 merges marks into their base before shaping, which
+   the simple model does not do); positions are compared when every mark of the text is hidden
+   according to the model (a mark that stays visible is positioned by the fallback mark positioning,
+   outside the model); glyph ids and the glyph count are always compared. *)
+Definition api_case : Type := N * N * list N * list N * list out_glyph.
+Definition check_api (ft : font) (c : api_case) : bool :=
+  let '(flags, level, text, marks, obs) := c in
+  outs_eqb (negb (level =? 0))
+           (forallb (fun m => ign_cp m && negb (has_bit flags FLAG_PRESERVE_DEFAULT_IGNORABLES)) marks)
+           (simple_shape ft flags level text) obs.
